@@ -34,6 +34,7 @@ type pxFrame struct {
 	parent *pxFrame
 	site   *ssa.Call
 	depth  int
+	fvals  map[*ssa.FreeVar]pxBound // closures: what the free variables stand for (pxro.go)
 }
 
 type pxState struct {
@@ -108,6 +109,8 @@ type PX struct {
 	// views: slices of slices / strings are terms view(root, lo, hi) with symbolic
 	// bounds, and len of a view is hi-lo (see pxviews.go); off by default.
 	views bool
+	// cloFrames: frame id + register of a MakeClosure -> the frame that executed it
+	cloFrames map[string]*pxFrame
 }
 
 func (w *World) newPX(h pxHooks) *PX {
@@ -163,6 +166,21 @@ func (p *PX) term(v ssa.Value, fr *pxFrame, st *pxState) *Term {
 			return t
 		}
 		return &Term{K: TLeaf, V: v, T: v.Type(), key: "<" + fr.id + "p:" + x.Name() + ">"}
+	case *ssa.FreeVar:
+		// inside a closure that was stepped into: the value captured by the frame that made it
+		if b, ok := fr.fvals[x]; ok {
+			return p.term(b.val, b.frame, st)
+		}
+	case *ssa.Function:
+		return fnTerm(x)
+	case *ssa.Global:
+		if t := p.roGlobalTerm(x); t != nil {
+			return t
+		}
+	case *ssa.FieldAddr:
+		if t := p.roFieldAddr(p.term(x.X, fr, st), x.Field, v.Type()); t != nil {
+			return t
+		}
 	case *ssa.Phi:
 		if t, ok := st.vals[p.reg(fr, v)]; ok {
 			return t
@@ -179,6 +197,9 @@ func (p *PX) term(v ssa.Value, fr *pxFrame, st *pxState) *Term {
 		if (x.Op == token.SUB || x.Op == token.ADD) && b.K == TConst && a.K == TBin && a.B.K == TConst && a.B.C.Cmp(b.C) == 0 &&
 			((x.Op == token.SUB && a.Op == token.ADD) || (x.Op == token.ADD && a.Op == token.SUB)) && types.Identical(a.T, v.Type()) {
 			return a.A
+		}
+		if t := nilCompare(x.Op, a, b, v.Type()); t != nil {
+			return t
 		}
 		t := &Term{K: TBin, Op: x.Op, A: a, B: b, T: v.Type(), key: "(" + a.key + " " + x.Op.String() + " " + b.key + ")"}
 		if a.K == TConst && b.K == TConst {
@@ -211,7 +232,33 @@ func (p *PX) term(v ssa.Value, fr *pxFrame, st *pxState) *Term {
 			if t, ok := st.vals[p.reg(fr, v)]; ok {
 				return t
 			}
+			// a load from a read-only package table: what the initialiser stored there
+			if g, ok := x.X.(*ssa.Global); ok {
+				if t := p.roGlobalSlice(g, v.Type()); t != nil {
+					return t
+				}
+			}
+			switch x.X.(type) {
+			case *ssa.Global, *ssa.FieldAddr, *ssa.IndexAddr, *ssa.Parameter, *ssa.Phi, *ssa.Call, *ssa.Extract, *ssa.FreeVar:
+				if kind, root, path, ok := roParts(p.term(x.X, fr, st)); ok && kind == "ro&" {
+					if t := p.roLoadTerm(root, path, fr, st); t != nil {
+						return t
+					}
+				}
+			}
 			if fa, ok := x.X.(*ssa.FieldAddr); ok {
+				// a field of a local struct variable: the value last stored into the field,
+				// or the component of the value last stored into the whole variable
+				if cell, isCell := p.cellOf(fa.X, fr); isCell {
+					if t, ok := st.vals[fmt.Sprintf("%s.%d", strings.TrimSuffix(cell, "*"), fa.Field)]; ok {
+						return t
+					}
+					if whole, ok := st.vals[cell]; ok {
+						if t := p.componentOf(whole, fa.Field, fr, st); t != nil {
+							return t
+						}
+					}
+				}
 				key := p.fieldLoadKey(fa, fr, st)
 				if t, ok := st.vals["mem:"+key]; ok {
 					return t
@@ -221,6 +268,14 @@ func (p *PX) term(v ssa.Value, fr *pxFrame, st *pxState) *Term {
 			if g, ok := x.X.(*ssa.Global); ok {
 				if c, ok := p.w.globalInit(g); ok {
 					return &Term{K: TConst, C: c, T: v.Type(), key: c.String()}
+				}
+			}
+			// load of a variable captured by a closure: the cell of the frame that made it
+			if _, isFV := x.X.(*ssa.FreeVar); isFV {
+				if cell, ok := p.cellOf(x.X, fr); ok {
+					if t, ok := st.vals[cell]; ok {
+						return t
+					}
 				}
 			}
 			// load of a local variable: the value last stored on this path
@@ -287,9 +342,15 @@ func (p *PX) term(v ssa.Value, fr *pxFrame, st *pxState) *Term {
 		}
 	case *ssa.Field:
 		a := p.term(x.X, fr, st)
+		if t := p.componentOf(a, x.Field, fr, st); t != nil {
+			return t
+		}
 		return &Term{K: TLeaf, V: v, T: v.Type(), key: fmt.Sprintf("fld(%s,.%d)", a.key, x.Field)}
 	case *ssa.IndexAddr:
 		a, i := p.term(x.X, fr, st), p.term(x.Index, fr, st)
+		if t := p.roIndexAddr(a, i, v.Type()); t != nil {
+			return t
+		}
 		return &Term{K: TLeaf, V: v, T: v.Type(), key: "idx(" + a.key + "," + i.key + ")"}
 	case *ssa.Convert:
 		a := p.term(x.X, fr, st)
@@ -314,11 +375,23 @@ func (p *PX) term(v ssa.Value, fr *pxFrame, st *pxState) *Term {
 			return p.term(x.X, fr, st)
 		}
 	case *ssa.Index:
+		if a := p.term(x.X, fr, st); a.K == TPure && a.Name == "roval" {
+			if i := p.term(x.Index, fr, st); i.K == TConst && i.C.IsInt64() {
+				if t := p.roComponent(a, int(i.C.Int64()), fr, st); t != nil {
+					return t
+				}
+			}
+		}
 		if b, ok := x.X.Type().Underlying().(*types.Basic); ok && b.Info()&types.IsString != 0 {
 			a, i := p.term(x.X, fr, st), p.term(x.Index, fr, st)
 			return &Term{K: TPure, Name: "strindex", Args: []*Term{a, i}, T: v.Type(), key: "idx(" + a.key + "," + i.key + ")"}
 		}
 	case *ssa.Slice:
+		if !isByteSlice(x.Type()) {
+			if t := p.roSlice(p.term(x.X, fr, st), x, fr, st); t != nil {
+				return t
+			}
+		}
 		if p.views {
 			return p.sliceView(x, fr, st)
 		}
@@ -532,6 +605,24 @@ func (p *PX) instrs(fr *pxFrame, b *ssa.BasicBlock, from int, st *pxState, k pxC
 			stepIn = p.hooks.onInstr(fr, in, st)
 		}
 		switch x := in.(type) {
+		case *ssa.MakeClosure:
+			p.noteClosure(x, fr)
+		case *ssa.Alloc:
+			// a variable cell starts with the zero value of its type (also when the
+			// Alloc is executed again in a loop: it is a new variable)
+			cell := p.reg(fr, x) + "*"
+			delete(st.vals, cell)
+			delete(st.bseq, cell)
+			if pt, ok := x.Type().Underlying().(*types.Pointer); ok {
+				if z := zeroOf(pt.Elem()); z != nil {
+					st.vals[cell] = z
+				}
+				if stt, ok := pt.Elem().Underlying().(*types.Struct); ok {
+					for i := 0; i < stt.NumFields(); i++ {
+						delete(st.vals, fmt.Sprintf("%s.%d", p.reg(fr, x), i))
+					}
+				}
+			}
 		case *ssa.MakeSlice:
 			if p.views {
 				// the length the slice is made with, as of now
@@ -547,6 +638,22 @@ func (p *PX) instrs(fr *pxFrame, b *ssa.BasicBlock, from int, st *pxState, k pxC
 			// local variable cells and symbolic byte sequences
 			if al, ok := x.Addr.(*ssa.Alloc); ok {
 				st.vals[p.reg(fr, al)+"*"] = p.term(x.Val, fr, st)
+				// a store to the whole variable replaces what was stored field by field
+				if stt, ok := x.Val.Type().Underlying().(*types.Struct); ok {
+					for i := 0; i < stt.NumFields(); i++ {
+						delete(st.vals, fmt.Sprintf("%s.%d", p.reg(fr, al), i))
+					}
+				}
+			} else if _, isFV := x.Addr.(*ssa.FreeVar); isFV {
+				// a variable captured by reference: the cell of the frame that made the closure
+				if cell, ok := p.cellOf(x.Addr, fr); ok {
+					st.vals[cell] = p.term(x.Val, fr, st)
+					if bs := p.byteSeqOf(x.Val, fr, st); bs != nil {
+						st.bseq[cell] = bs
+					} else {
+						delete(st.bseq, cell)
+					}
+				}
 			}
 			if fa, ok := x.Addr.(*ssa.FieldAddr); ok {
 				vt := p.term(x.Val, fr, st)
@@ -575,24 +682,42 @@ func (p *PX) instrs(fr *pxFrame, b *ssa.BasicBlock, from int, st *pxState, k pxC
 		case *ssa.Call:
 			p.byteCall(x, fr, st)
 			sc := x.Call.StaticCallee()
+			// a call through a function value: an entry of a read-only table, a closure
+			// held in a variable — resolved on the path, then an ordinary static call
+			dfn, mc, maker := p.dynCallee(x, fr, st)
+			if sc == nil {
+				sc = dfn
+			}
+			// closures handed to code that is not followed may run there
+			for _, a := range x.Call.Args {
+				if amc, ok := a.(*ssa.MakeClosure); ok {
+					p.killCaptured(amc, fr, st)
+				}
+			}
 			if sc == nil || !stepIn {
 				if sc != nil {
 					p.callEffects(sc, st)
 					p.recordCall(x, sc, fr, st)
 				}
+				p.killCaptured(mc, maker, st)
 				continue
 			}
 			inl := p.defaultInline(fr, sc)
 			if inl && p.hooks.inline != nil {
 				inl = p.hooks.inline(fr, sc)
 			}
+			if inl && len(sc.FreeVars) > 0 && mc == nil {
+				inl = false // a closure whose captured variables are not known
+			}
 			if !inl {
 				p.callEffects(sc, st)
 				p.recordCall(x, sc, fr, st)
+				p.killCaptured(mc, maker, st)
 				continue
 			}
 			p.seq++
 			child := &pxFrame{fn: sc, id: fmt.Sprintf("%sc%d/", fr.id, p.seq), subst: map[*ssa.Parameter]*Term{}, parent: fr, site: x, depth: fr.depth + 1}
+			p.bindClosure(child, mc, maker)
 			for ai, prm := range sc.Params {
 				if ai < len(x.Call.Args) {
 					child.subst[prm] = p.term(x.Call.Args[ai], fr, st)
@@ -693,6 +818,9 @@ func (p *PX) enter(fr *pxFrame, from, to *ssa.BasicBlock, st *pxState, k pxCont,
 
 // lenTerm: len(a); the length of append(s, k elements) is len(s)+k.
 func (p *PX) lenTerm(a *Term, t types.Type) *Term {
+	if n, ok := roLen(a); ok {
+		return constT(n, t)
+	}
 	if a.K == TPure && a.Name == "view" && len(a.Args) == 3 {
 		return subT(a.Args[2], a.Args[1], t)
 	}
